@@ -291,6 +291,13 @@ def c06(rec):
     if rec.exit_done and unreaped:
         out.append(dict(signature=f"C06:workers-not-reaped|cause={c}",
                         msg=f"killed workers never reaped: {unreaped}"))
+    for o in rec.ops:
+        if o["op"][0] == "expect_resolved" and o["returned"] and (o.get("value") or o.get("alive_workers")):
+            out.append(dict(signature=f"C06:forced-shutdown-not-carried-out|cause={c}",
+                            msg=f"shutdown(wait=False, kill_workers=True) returned and the system "
+                                f"came to rest, yet futures {o.get('value')} are unresolved and "
+                                f"workers {o.get('alive_workers')} alive: the forced shutdown waits "
+                                f"for something else to happen"))
     desc = [d["label"] for d in getattr(rec, "descendants", []) if d["alive"]]
     if rec.exit_done and desc:
         out.append(dict(signature=f"C06:descendants-left-alive|cause={c}",
